@@ -282,6 +282,25 @@ class Abort(Exception):
     pass
 
 
+
+def _scribble(container):
+    """Modify the caller's container in place after it has been assigned (lists and ndarrays only): duplicate the
+    first element at the end and drop the original first element, so that both length and order change."""
+    np = _W.get("np")
+    if isinstance(container, list):
+        if container:
+            container.append(container[0])
+            del container[0]
+            container.append(container[0])
+        else:
+            container.append(None)
+    elif np is not None and isinstance(container, np.ndarray) and container.size:
+        try:
+            container[...] = container[::-1].copy() * 3 + 1
+        except Exception:  # noqa - object arrays etc.
+            pass
+
+
 class Run:
     """One history on one live group."""
 
@@ -327,6 +346,8 @@ class Run:
             self.group = Gc(name="grp", observers=[self.live_member(m) for m in ms])
 
     # ------------------------------------------------------------------------------------------
+    # (see _scribble below: after an accepted assignment the caller's own container is modified in place; the group
+    # must not be affected - it may not keep a reference to a mutable argument)
     def perform(self, op, plan):
         """Execute `op` on the live group; returns None or the exception."""
         g, spec, objs = self.group, self.spec, self.objs
@@ -343,6 +364,7 @@ class Run:
                     vals = [_real(objs, typ, v, inner) for v in plan["value"]]
                     val = _W["np"].array(vals) if cont == "nd" else (tuple(vals) if cont == "tuple" else vals)
                 setattr(g, attr, val)
+                _scribble(val)
             elif kind in ("add", "add_alias"):
                 lm = self.live_member(plan["new"][0])
                 getattr(g, spec["add"] if kind == "add" else spec["alias"][1])(lm)
@@ -353,9 +375,12 @@ class Run:
                 if plan["container"] == "tuple":
                     lst = tuple(lst)
                 setattr(g, spec["members_attr"] if kind == "obs" else spec["alias"][0], lst)
+                _scribble(lst)
             elif kind == "names":
                 v = plan["value"]
-                g.names = tuple(v) if plan["container"] == "tuple" else v
+                v = tuple(v) if plan["container"] == "tuple" else list(v)
+                g.names = v
+                _scribble(v)
             elif kind == "rename":
                 g[plan["index"]].name = plan["value"]
             elif kind == "mset":
